@@ -6,7 +6,7 @@ LEVEL = 'exploration'
 CACHE_FULL = 0x607
 ST_RESP, ST_CONF, ST_ERR = 3, 4, 5
 
-ACTIONS = ['add', 'run', 'reply', 'reply_last', 'dup', 'unknown_id', 'stale_gen', 'bad_mac', 'err_status', 'err_pdu', 'push_conf', 'partial', 'close', 'refuse', 'wouldblock', 'clock', 'grow']
+ACTIONS = ['add', 'run', 'reply', 'reply_last', 'dup', 'unknown_id', 'stale_gen', 'bad_mac', 'err_status', 'err_pdu', 'push_conf', 'partial', 'close', 'refuse', 'wouldblock', 'clock', 'grow', 'add_unsendable']
 
 
 class Req:
@@ -175,6 +175,19 @@ class Monitor:
                 self.trace[-1] = 'add->cache-full'
             else:
                 self.viol('add-unexpected-error', 'addRequest rc=%#x' % q.rc)
+        elif a == 'add_unsendable':
+            # a submission that is refused for a reason of its own (the configured MAC algorithm is not trusted, so no PDU can be made of it) leaves no
+            # trace: not outstanding, not counted, never handed back, and it does not use up a cache slot
+            self.n += 1
+            h = R.H(1, b'%s/%d/unsendable' % (self.label.encode(), self.n))
+            s.cmd('opt 0 aggr_hmac 0')
+            q = s.cmd('async_add 0 0 sign %s 0 u%d' % (h.hex(), self.n))
+            s.cmd('opt 0 aggr_hmac 1')
+            if q.rc == 0:
+                self.viol('add-unsendable-accepted', 'request accepted although its PDU cannot be authenticated (MAC algorithm SHA-1 configured)')
+            else:
+                self.r.count('submissions_refused_for_their_own_reason')
+                self.trace[-1] = 'add_unsendable->rc=%#x' % q.rc
         elif a == 'grow':
             # the request cache is enlarged on the live service (never shrunk): everything accepted so far stays accepted
             newc = self.cache + rng.choice([1, 1, 2, 5])
@@ -631,10 +644,11 @@ def run(ctx):
     if not ctx.violations and not ctx.known_printed:
         ctx.require(c.get('schedules', 0) >= 1000 and c.get('returned_with_response', 0) >= 500, 'schedules run and responses observed')
         ctx.require(c.get('conf_accounting_scenarios', 0) >= 30, 'configuration accounting scenarios')
+        ctx.require(c.get('submissions_refused_for_their_own_reason', 0) >= 100, 'submissions refused for a reason other than a full cache')
 
 
 # ------------------------------------------------------------------ HTTP transport (request granularity)
-HTTP_ACTIONS = ['add', 'run', 'ok', 'ok_last', 'other_in_body', 'two_in_body', 'dup_body', 'unknown_id', 'bad_mac', 'err_status', 'err_pdu', 'http_500', 'curl_error', 'garbage', 'empty', 'clock']
+HTTP_ACTIONS = ['add', 'add_unsendable', 'run', 'ok', 'ok_last', 'other_in_body', 'two_in_body', 'dup_body', 'unknown_id', 'bad_mac', 'err_status', 'err_pdu', 'http_500', 'curl_error', 'garbage', 'empty', 'clock']
 
 
 class HttpMonitor(Monitor):
@@ -704,7 +718,7 @@ class HttpMonitor(Monitor):
         return True
 
     def do(self, a):
-        if a in ('add', 'run', 'clock'):
+        if a in ('add', 'add_unsendable', 'run', 'clock'):
             return Monitor.do(self, a)
         self.trace.append(a)
         rng = self.rng
